@@ -37,6 +37,12 @@ theorem close_notify_received (l : Local) (lvl : Nat) (rest : List Rec) (mx : Op
   · simp [shutdown_me, popped]
   · simp only [shutdown_out_recs]; rfl
 
+/-- non-vacuity: buffered data, then close_notify; the read returns the data, closed, resumable -/
+example : (runLocal (.read none 5) ⟨{ isClient := true, ver13 := true, readBuf := [7, 8] },
+      ⟨[⟨0, .alert 1 0⟩], false⟩, {}⟩).1 = .bytes [7, 8] ∧
+    (runLocal (.read none 5) ⟨{ isClient := true, ver13 := true, readBuf := [7, 8] },
+      ⟨[⟨0, .alert 1 0⟩], false⟩, {}⟩).2.me.resumable = true := by decide +kernel
+
 /-- After an orderly close — indeed after any closure — over EVERY later history of operations by
     either endpoint: the connection stays closed and the session's resumable flag is never touched
     again (so it stays resumable after close_notify). -/
@@ -103,6 +109,9 @@ theorem fatal_alert_surfaced (l : Local) (lvl d : Nat) (rest : List Rec) (mx : O
   · simp [shutdown_me]
   · simp [shutdown_me]
   · simp only [shutdown_out_recs]; rfl
+
+example : (runLocal (.read none 1) ⟨{ isClient := false, ver13 := false }, ⟨[⟨0, .alert 2 40⟩], false⟩, {}⟩).1
+    = .err (.remoteAlert 40) := by decide +kernel
 
 /-- A warning alert other than close_notify is handled as the code does: answered with
     close_notify, raised as TLSRemoteAlert, the connection is closed and the session invalidated. -/
@@ -177,6 +186,11 @@ theorem transport_fault_data_recv (l : Local) (mx : Option Nat) (mn : Nat)
     rw [getMsgStep_empty ex sx l hin]; simp [hne, hrx]
   rw [read_of_iter_err' l l mx mn _ hopen hneed hi (by simp) (by simp)]
   simp [shutdown_me]
+
+example : (runLocal (.read none 1) ⟨{ isClient := true, ver13 := true, rxDead := 2 }, {}, {}⟩).1 = .err .socketError ∧
+    (runLocal (.write [1, 2]) ⟨{ isClient := true, ver13 := true, txDead := true }, {}, {}⟩).1 = .err .socketError ∧
+    (runLocal (.keyUpdate true) ⟨{ isClient := true, ver13 := true, txDead := true }, {}, {}⟩).2.me.closed = true := by
+  decide +kernel
 
 theorem transport_fault_data_send (l : Local) (hopen : l.me.closed = false) (htx : l.me.txDead = true) :
     (∀ d, (write d l).1 = .err .socketError ∧ (write d l).2.me.closed = true ∧
